@@ -284,6 +284,21 @@ CLAIMS = {
         "[T-1, T]; large-shot statistics are not decided.",
         "DESIGN.md §3 C11",
     ),
+    "C20": (
+        "exploration",
+        "exhaustive grids of states x Hamiltonians / operator representations x observables against numpy trace "
+        "definitions; end-to-end V2 runs over evaluation-time configurations; BitStrings under enumerated RNG tapes",
+        "20.6k cases (quick): a 9-member state family (basis states, uniform, signed/complex, entangled, 1/4-3/4 mixture, "
+        "maximally mixed, diagonal) as ket and density matrix x 6 eigenstate sets (2, 3, 4 levels) x 1-3 qudits x 3 "
+        "Hamiltonians: Occupation, CorrelationMatrix, Energy, EnergySecondMoment, EnergyVariance, Fidelity against every pure "
+        "member, Expectation of a non-Hermitian operator, operator +, scalar*, @ and apply_to == matrix algebra; 6 "
+        "operator-representation shapes and 4 amplitude sets per (levels, qudits) == explicit Kronecker products, probabilities "
+        "and basis-state indexing; end-to-end runs over per-observable time lists (unsorted, near-duplicate) x default times x "
+        "noise: ascending unique times, retrieval by observable and tag, stored values == definitions on the stored state and "
+        "noiseless Hamiltonian; BitStrings under every tape of a 6-value menu per draw x detection-error settings.",
+        "Known finding: observables with own evaluation times are also stored at the default times.",
+        "DESIGN.md §3 C20",
+    ),
 }
 
 PENDING_REASON = "check not built yet in this round (design in DESIGN.md §3); nothing is claimed for it"
